@@ -6,6 +6,7 @@ import BV.C05.Lemmas
 import BV.C05.Lemmas2
 import BV.C05.Lemmas3
 import BV.C05.Lemmas4
+import BV.C05.Lemmas5
 import BV.Generated.C05
 namespace BV.C05
 open Treap
@@ -88,6 +89,20 @@ theorem treap_refines_map (ops : List (TOp Key Val)) :
 
 example : SortedKeys cmpB (put cmpB [1] [2] 7 (.nil : Treap Key Val)).toList :=
   (treap_put_spec .nil [1] [2] 7 List.Pairwise.nil).2
+
+/-- The iterator's three seeks (`Seek`/`First` with a start key; `Next` resp. `Prev` after an update
+of the treap; `Last` with a limit key) are navigation in the sorted contents: first entry `≥ k`,
+first entry `> k`, last entry `< k`; `First`/`Last` without limits are the ends of the list.
+(`limitIter` then applies the range limits to the selected entry.) -/
+theorem treap_iter_seek (t : Treap Key Val) (k : Key) (hs : SortedKeys cmpB t.toList) :
+    seekAux cmpB k true true t none = firstGE cmpB k t.toList ∧
+    seekAux cmpB k false true t none = firstGT cmpB k t.toList ∧
+    seekAux cmpB k false false t none = lastLT cmpB k t.toList ∧
+    leftmost t = t.toList.head? ∧ rightmost t = t.toList.getLast? := by
+  refine ⟨?_, ?_, ?_, Lemmas.leftmost_spec t, Lemmas.rightmost_spec t⟩
+  · rw [Lemmas.seekGE_spec Lemmas.cmpB_laws k t none hs]; cases firstGE cmpB k t.toList <;> rfl
+  · rw [Lemmas.seekGT_spec Lemmas.cmpB_laws k t none hs]; cases firstGT cmpB k t.toList <;> rfl
+  · rw [Lemmas.seekLT_spec Lemmas.cmpB_laws k t none hs]; cases lastLT cmpB k t.toList <;> rfl
 
 /-- Balance invariant, first half: `put` keeps the min-heap order on priorities (with the BST order
 this makes the shape the one of a random binary search tree). -/
